@@ -388,11 +388,11 @@ func (e *Exec) loop() {
 		}
 		if len(en) == 0 {
 			// idle waiters next
+			// highest id first: helper threads settle before the orchestrating main thread resumes
 			var iw *thread
 			for _, t := range e.threads {
 				if t.state == tsParked && t.idle {
 					iw = t
-					break
 				}
 			}
 			if iw != nil {
